@@ -17,6 +17,7 @@ import MocVerif.Lemmas.Codec
 import MocVerif.Lemmas.Cells
 import MocVerif.Lemmas.CodecMoc
 import MocVerif.Lemmas.Text
+import MocVerif.Lemmas.Fits
 import MocVerif.Props.C05
 
 namespace Moc.Codec.C07
@@ -397,6 +398,90 @@ theorem padding_spec (n : Nat) : (n + padding n) % 2880 = 0 ∧ padding n < 2880
     · have : n + (2880 - n % 2880) = 2880 * (n / 2880 + 1) := by omega
       rw [this]; exact Nat.mul_mod_right _ _
     · omega
+
+/-! ### The whole FITS file (both header blocks, data unit, padding) -/
+section FitsFile
+open Moc.Fits
+
+/-- **Emitted FITS is made of 2880-byte blocks**: the file written for any range MOC — two header
+    blocks, the data unit, its zero padding — has a length that is a multiple of 2880. -/
+theorem fits_file_blocks (q : Qty) (w depth : Nat) (rs : List Rng) (hd : depth ≤ 255)
+    (hw : w / 8 < 10 ^ 20) (hn : rs.length <<< 1 < 10 ^ 20) :
+    (rangeFile q w depth rs).length % 2880 = 0 := by
+  unfold rangeFile
+  simp only [List.length_append, List.length_map, List.length_replicate,
+    block_length _ primaryCards_80 (by decide),
+    block_length _ (tableCards_80 q w depth rs.length hd hw hn) (tableCards_count q w depth rs.length)]
+  have := (padding_spec (dataUnit w rs).length).1
+  omega
+
+/-- **Declared row width and row count equal the data actually written, and the data are read back**:
+    the reader's unsigned-value parser applied to the `NAXIS1` and `NAXIS2` cards of the file gives
+    the index width in bytes and twice the number of ranges; their product is exactly the number of
+    data bytes written before the padding; and the `NAXIS1 × NAXIS2` bytes that follow the two
+    header blocks decode (big-endian words, `(start, end)` pairs) to exactly the ranges of the MOC —
+    for every quantity, index width, depth and list of ranges whose bounds fit the index type. -/
+theorem fits_file_structure (q : Qty) (w depth : Nat) (rs : List Rng) (hd : depth ≤ 255)
+    (hw : w / 8 < 10 ^ 20) (hn : rs.length <<< 1 < 10 ^ 20)
+    (hfit : ∀ r ∈ rs, r.1 < 256 ^ (w / 8) ∧ r.2 < 256 ^ (w / 8)) :
+    readStructure (rangeFile q w depth rs) = some (w / 8, rs.length <<< 1, rs) ∧
+    (w / 8) * (rs.length <<< 1) = (dataUnit w rs).length := by
+  have hp := block_length _ primaryCards_80 (by decide)
+  have ht80 := tableCards_80 q w depth rs.length hd hw hn
+  have ht := block_length _ ht80 (tableCards_count q w depth rs.length)
+  have hlen : (dataUnit w rs).length = (w / 8) * (rs.length <<< 1) := by
+    rw [dataUnit_length, Nat.shiftLeft_eq, Nat.pow_one, Nat.mul_comm 2]
+  refine ⟨?_, hlen.symm⟩
+  have hhdr : ((rangeFile q w depth rs).take 5760).map Char.ofNat
+      = block primaryCards ++ block (tableCards q w depth rs.length) := by
+    unfold rangeFile
+    simp only []
+    have hl : ((block primaryCards ++ block (tableCards q w depth rs.length)).map Char.toNat).length = 5760 := by
+      simp only [List.length_map, List.length_append, hp, ht]
+    rw [List.append_assoc, ← hl, List.take_left, map_ofNat_toNat]
+  have hdata : ((rangeFile q w depth rs).drop 5760).take ((w / 8) * (rs.length <<< 1)) = dataUnit w rs := by
+    unfold rangeFile
+    simp only []
+    have hl : ((block primaryCards ++ block (tableCards q w depth rs.length)).map Char.toNat).length = 5760 := by
+      simp only [List.length_map, List.length_append, hp, ht]
+    rw [List.append_assoc, ← hl, List.drop_left, ← hlen, List.take_left]
+  obtain ⟨n1, n2⟩ := tableCards_naxis q w depth rs.length
+  have c39 : getCard (block primaryCards ++ block (tableCards q w depth rs.length)) 39
+      = cardFixed ['N', 'A', 'X', 'I', 'S', '1', ' ', ' '] (showNat (w / 8)) := by
+    have := getCard_second (block primaryCards) (block (tableCards q w depth rs.length)) hp 3
+    rw [show 36 + 3 = 39 from rfl] at this
+    rw [this]
+    have h2 := getCard_block _ ht80 [] 3 _ n1
+    rwa [List.append_nil] at h2
+  have c40 : getCard (block primaryCards ++ block (tableCards q w depth rs.length)) 40
+      = cardFixed ['N', 'A', 'X', 'I', 'S', '2', ' ', ' '] (showNat (rs.length <<< 1)) := by
+    have := getCard_second (block primaryCards) (block (tableCards q w depth rs.length)) hp 4
+    rw [show 36 + 4 = 40 from rfl] at this
+    rw [this]
+    have h2 := getCard_block _ ht80 [] 4 _ n2
+    rwa [List.append_nil] at h2
+  unfold readStructure
+  simp only []
+  rw [hhdr, c39, c40, readUint_cardFixed _ _ rfl (showNat_length 19 _ hw),
+    readUint_cardFixed _ _ rfl (showNat_length 19 _ hn)]
+  simp only [hdata]
+  have hwl : (encodeWords rs).length = rs.length <<< 1 := by
+    rw [encodeWords_length, Nat.shiftLeft_eq, Nat.pow_one, Nat.mul_comm]
+  have hwords := wordsOf_flatMap (w / 8) (encodeWords rs) (by
+    intro x hx
+    obtain ⟨r, hr, h | h⟩ := mem_encodeWords rs x hx
+    · rw [h]; exact (hfit r hr).1
+    · rw [h]; exact (hfit r hr).2) []
+  rw [List.append_nil, hwl] at hwords
+  unfold dataUnit
+  rw [hwords, decodeWords_encodeWords]
+
+/-- Non-vacuity: the hypotheses hold for an S-MOC on 16 bits. -/
+example : readStructure (rangeFile Params.hpx 16 4 [(16, 96), (112, 128)]) = some (2, 4, [(16, 96), (112, 128)]) :=
+  (fits_file_structure Params.hpx 16 4 [(16, 96), (112, 128)] (by decide) (by decide) (by decide)
+    (by intro r hr; simp only [List.mem_cons, List.not_mem_nil, or_false] at hr; rcases hr with rfl | rfl <;> decide)).1
+
+end FitsFile
 
 /-- NUNIQ rows: decoding the code of a cell gives the cell back (all depths, all indices). -/
 theorem nuniq_row_roundtrip (d i : Nat) (hi : i < 12 * 4 ^ d) : fromUniqHpx (uniqHpx d i) = (d, i) :=
